@@ -110,6 +110,11 @@ func (n *RaftNode) Add(event []byte) (*balloon.Snapshot, error) {
 // As a result, it returns a bulk of shapshots, but previously it sends each snapshot
 // of the bulk to the agents channel, in order to be published/queried.
 func (n *RaftNode) AddBulk(bulk [][]byte) ([]*balloon.Snapshot, error) {
+	if len(bulk) == 0 {
+		// an empty command must never reach the replicated log: no replica can apply it
+		return nil, errors.New("unable to add an empty bulk of events")
+	}
+
 	// Hash events
 	var eventHashBulk []hashing.Digest
 	for _, event := range bulk {
@@ -195,6 +200,10 @@ func (n *RaftNode) Apply(l *raft.Log) interface{} {
 		var eventDigests []hashing.Digest
 		if err := cmd.decode(&eventDigests); err != nil {
 			panic(fmt.Sprintf("Unable to decode command: %v", err))
+		}
+		if len(eventDigests) == 0 {
+			// nothing to insert (such an entry can only come from a log written by an older version)
+			return &fsmResponse{fmt.Errorf("empty add command at index %d ignored", l.Index), nil}
 		}
 		newState := &fsmState{l.Index, n.balloon.Version() + uint64(len(eventDigests)) - 1}
 		if n.state.shouldApply(newState) {
